@@ -9,6 +9,7 @@
 //! usage: replay <mode> [--one <json-input>]      modes: detect add_line inject replace_le depmgr
 //! prints one JSON object: {"mode":..,"checked":N,"distinct":N,"bound":"..","failures":[{..}]}
 
+mod system;
 use std::collections::{BTreeMap, BTreeSet};
 use std::path::PathBuf;
 use txtpp::verif::{AbsPath, DepManager, Directive, DirectiveType, ReplaceLineEnding, TagState};
@@ -172,7 +173,7 @@ fn strings_up_to(alpha: &[&str], n: usize) -> Vec<String> {
     set.into_iter().collect()
 }
 
-fn jstr(s: &str) -> String {
+pub(crate) fn jstr(s: &str) -> String {
     let mut o = String::from("\"");
     for c in s.chars() {
         match c {
@@ -506,6 +507,14 @@ fn main() {
         "inject" => mode_inject(&mut rep),
         "replace_le" => mode_replace_le(&mut rep),
         "depmgr" => mode_depmgr(&mut rep),
+        "system" => {
+            let work = std::path::PathBuf::from(args.get(2).cloned().unwrap_or_else(|| "syswork".into()));
+            let r = system::run_all(&work);
+            let _ = std::fs::remove_dir_all(&work);
+            rep.bound = format!("{} fixed project scenarios x {{trailing newline on/off}} x {{Build, InMemoryBuild}} x 5 pre-states of the generated files x {{1,4}} threads, then Verify (+ tampering of each output), up-to-date rebuilds (inode/mtime), Clean twice; reference = executable transcription of spec/pp.rs; scenarios where the semantics prescribe an error: {:?}", system::scenarios().len(), { let mut e = r.expected_err.clone(); e.sort(); e });
+            rep.checked = r.checked;
+            rep.failures = r.failures;
+        }
         _ => {
             eprintln!("unknown mode");
             std::process::exit(2);
